@@ -17,6 +17,7 @@
 package main
 
 import (
+	"bytes"
 	"context"
 	"encoding/json"
 	"errors"
@@ -24,6 +25,8 @@ import (
 	"io"
 	"log"
 	"log/slog"
+	"net/http"
+	"net/http/httptest"
 	"os"
 	"path/filepath"
 	"strconv"
@@ -35,6 +38,9 @@ import (
 	"verifharness/vhlib"
 
 	gqd "github.com/els0r/goProbe/v4/cmd/global-query/pkg/distributed"
+	"github.com/els0r/goProbe/v4/pkg/api"
+	gqserver "github.com/els0r/goProbe/v4/pkg/api/globalquery/server"
+	apiserver "github.com/els0r/goProbe/v4/pkg/api/server"
 	"github.com/els0r/goProbe/v4/pkg/distributed/hosts"
 	"github.com/els0r/goProbe/v4/pkg/goDB/engine"
 	"github.com/els0r/goProbe/v4/pkg/query"
@@ -66,10 +72,17 @@ type opIn struct {
 	CWait    bool   `json:"cwait,omitempty"`   // patient query that the next operation cancels while it waits
 }
 
+type cfgIn struct {
+	RatePos bool `json:"rate_pos"` // max_req_per_sec > 0 (a limiter that never limits: huge rate and burst)
+	Burst   int  `json:"burst"`
+	N       int  `json:"max_concurrent"`
+}
+
 type input struct {
-	Runner string `json:"runner"` // dist | engine
+	Runner string `json:"runner"` // dist | engine | gqapi (global-query API server, runner built by the server)
 	Max    int    `json:"max"`
 	Ops    []opIn `json:"ops"`
+	Cfg    *cfgIn `json:"cfg,omitempty"` // gqapi: server.WithQueryRateLimit(rate, burst, max_concurrent)
 }
 
 type item struct {
@@ -186,6 +199,28 @@ type runner interface {
 	Run(ctx context.Context, args *query.Args) (*results.Result, error)
 }
 
+// apiRunner posts the query to the HTTP handler of a real API server
+type apiRunner struct{ h http.Handler }
+
+func (r apiRunner) Run(ctx context.Context, a *query.Args) (*results.Result, error) {
+	body, err := json.Marshal(a)
+	if err != nil {
+		return nil, err
+	}
+	req := httptest.NewRequest(http.MethodPost, api.QueryRoute, bytes.NewReader(body)).WithContext(ctx)
+	req.Header.Set("Content-Type", "application/json")
+	rec := httptest.NewRecorder()
+	r.h.ServeHTTP(rec, req)
+	if rec.Code != http.StatusOK {
+		return nil, fmt.Errorf("HTTP status %d", rec.Code)
+	}
+	res := new(results.Result)
+	if err := json.Unmarshal(rec.Body.Bytes(), res); err != nil {
+		return nil, err
+	}
+	return res, nil
+}
+
 func launch(rn runner, ctx context.Context, a *query.Args, c *qctl, q int) {
 	go func() {
 		var (
@@ -220,7 +255,7 @@ func buildArgs(in *input, o opIn, full bool) (*query.Args, string) {
 	if full && o.Patient && o.CWait {
 		a.KeepAlive = cancelWait
 	}
-	if in.Runner == "dist" {
+	if in.Runner != "engine" {
 		a.QueryHosts = fmt.Sprintf("q%d", o.Q)
 		a.Ifaces = "any"
 	}
@@ -277,13 +312,27 @@ func execute(in *input) (obs []obsOp, err error) {
 	w := &world{qs: map[int]*qctl{}}
 	rm := hosts.NewResolverMap()
 	rm.Set("string", mockResolver{w})
-	dist := gqd.NewQueryRunner(rm, mockQuerier{w}, gqd.WithMaxConcurrent(sem))
+	var dist runner = gqd.NewQueryRunner(rm, mockQuerier{w}, gqd.WithMaxConcurrent(sem))
 	var pending []*qctl
 	live := 0 // holders the harness has seen acquire and not yet return
 	hung := false
+	isFull := func() bool { return len(sem) == cap(sem) }
+	inUse := func() int { return len(sem) }
+	if in.Runner == "gqapi" {
+		// the REAL server construction: option -> accessor -> registerRoutes -> semaphore -> runner.
+		// The channel is private to the server: "full" is what the CONFIGURATION promises, the sample
+		// is the number of queries the mock sees executing.
+		opt := apiserver.WithQueryRateLimit(0, in.Cfg.Burst, in.Cfg.N)
+		if in.Cfg.RatePos {
+			opt = apiserver.WithQueryRateLimit(1e12, 1<<30+in.Cfg.Burst, in.Cfg.N)
+		}
+		dist = apiRunner{gqserver.New("localhost:0", rm, mockQuerier{w}, opt).API().Adapter()}
+		isFull = func() bool { return in.Cfg.N > 0 && live >= in.Cfg.N }
+		inUse = func() int { return live }
+	}
 
 	spawn := func(o opIn) []item {
-		full := len(sem) == cap(sem)
+		full := isFull()
 		ctx, cancel := context.WithCancel(context.Background())
 		c := &qctl{spec: o, acq: make(chan struct{}), gate: make(chan struct{}), ret: make(chan item, 1), cancel: cancel}
 		w.mu.Lock()
@@ -313,7 +362,7 @@ func execute(in *input) (obs []obsOp, err error) {
 			if o.Kind == "run" && !o.Blocking && o.Exit == "cancel" {
 				cancel() // cancelled before it starts: still has to take and return its slot
 			}
-			if in.Runner == "dist" {
+			if in.Runner != "engine" {
 				launch(dist, ctx, a, c, o.Q)
 			} else {
 				// one runner per query as it carries per-query state; they share the semaphore
@@ -419,7 +468,7 @@ func execute(in *input) (obs []obsOp, err error) {
 		default:
 			return nil, fmt.Errorf("unknown op %q", o.Op)
 		}
-		obs = append(obs, obsOp{Items: items, InUse: len(sem)})
+		obs = append(obs, obsOp{Items: items, InUse: inUse()})
 	}
 
 	// not part of the observation: let everything that is still around go away
@@ -460,8 +509,14 @@ func coqOp(o opIn) string {
 }
 
 func validate(in *input) error {
-	if in.Runner != "dist" && in.Runner != "engine" {
+	if in.Runner != "dist" && in.Runner != "engine" && in.Runner != "gqapi" {
 		return fmt.Errorf("runner %q", in.Runner)
+	}
+	if (in.Runner == "gqapi") != (in.Cfg != nil) {
+		return errors.New("cfg goes with runner gqapi")
+	}
+	if in.Cfg != nil && (in.Cfg.N < 0 || in.Cfg.N > 64 || in.Cfg.Burst < 0 || in.Cfg.Burst > 1000) {
+		return errors.New("cfg out of range")
 	}
 	if in.Max < 0 || in.Max > 64 || len(in.Ops) > 200 {
 		return errors.New("script too large")
@@ -487,6 +542,9 @@ func validate(in *input) error {
 			}
 			if in.Runner == "engine" && (o.Exit == "panic" || o.Exit == "cancel") {
 				return errors.New("engine runner: no controllable panic / cancellation point")
+			}
+			if in.Runner == "gqapi" && (o.Exit == "panic" || o.Exit == "cancel" || o.CWait) {
+				return errors.New("gqapi runner: result / error exits only (the HTTP layer recovers panics)")
 			}
 			if in.Runner == "engine" && o.Blocking && o.Exit != "ok" {
 				return errors.New("engine runner: blocking holders are plain slots")
@@ -551,8 +609,16 @@ func run(raw json.RawMessage, _ vhlib.Opts) (*vhlib.Case, error) {
 	for t := range tagset {
 		tags = append(tags, t)
 	}
-	coq := fmt.Sprintf("mkCase %s %d %s %s", vhlib.CoqBool(in.Runner == "engine"), in.Max,
-		vhlib.CoqList(ops), vhlib.CoqList(cobs))
+	ccfg := "None"
+	if in.Cfg != nil {
+		ccfg = fmt.Sprintf("(Some (mkCfg %s %d %d))", vhlib.CoqBool(in.Cfg.RatePos), in.Cfg.Burst, in.Cfg.N)
+		tagset[fmt.Sprintf("cfg:rate>0=%v,burst>0=%v,n=%d", in.Cfg.RatePos, in.Cfg.Burst > 0, in.Cfg.N)] = true
+		if in.Cfg.N == 0 {
+			peak = -1 // unlimited: there is no limit to reach
+		}
+	}
+	coq := fmt.Sprintf("mkCase %s %d %s %s %s", vhlib.CoqBool(in.Runner == "engine"), in.Max,
+		vhlib.CoqList(ops), vhlib.CoqList(cobs), ccfg)
 	return &vhlib.Case{
 		Observed: obs, Tags: vhlib.SortedCopy(tags),
 		// non-trivial: the limit was reached and at least one query was rejected or had to wait
@@ -576,7 +642,7 @@ type genState struct {
 func (g *genState) randomSpawn(allowPatient bool) opIn {
 	r := g.r
 	o := opIn{Op: "spawn", Q: g.n, Kind: "run"}
-	dist := g.in.Runner == "dist"
+	dist := g.in.Runner != "engine"
 	switch {
 	case r.Chance(12):
 		o.Kind = "prepfail"
@@ -588,6 +654,9 @@ func (g *genState) randomSpawn(allowPatient bool) opIn {
 	case dist:
 		o.Blocking = r.Chance(65)
 		o.Exit = vhlib.Pick(r, []string{"ok", "ok", "err", "err", "panic", "cancel"})
+		if g.in.Runner == "gqapi" {
+			o.Exit = vhlib.Pick(r, []string{"ok", "ok", "err"})
+		}
 		switch o.Exit {
 		case "err":
 			if o.Blocking {
@@ -652,6 +721,16 @@ func (g *genState) add(o opIn) {
 	g.track(o)
 }
 
+func genAPIScript(r *vhlib.Rand, c cfgIn, nops int) *input {
+	lim := c.N
+	if lim == 0 {
+		lim = 1 << 20 // no limit configured
+	}
+	in := genScript(r, "gqapi", lim, nops)
+	in.Max, in.Cfg = c.N, &c
+	return in
+}
+
 func genScript(r *vhlib.Rand, runner string, max, nops int) *input {
 	g := &genState{in: &input{Runner: runner, Max: max}, r: r, waiter: -1}
 	for len(g.in.Ops) < nops {
@@ -661,7 +740,7 @@ func genScript(r *vhlib.Rand, runner string, max, nops int) *input {
 		}
 		// the caller of a query beyond the limit goes away while the query waits; afterwards the limit
 		// must be what it was: followed by an attempt that has to be rejected
-		if g.inUse >= max && r.Chance(6) {
+		if g.inUse >= max && runner != "gqapi" && r.Chance(6) {
 			o := g.randomSpawn(false)
 			if o.Kind == "run" && !(runner == "engine" && o.Blocking) {
 				o.Patient, o.CWait = true, true
@@ -764,10 +843,39 @@ func fixed() []input {
 	}
 }
 
+// every combination of the rate limiter options with max_concurrent 0, 1, 2
+func apiCfgs() (out []cfgIn) {
+	for _, n := range []int{1, 2, 0} {
+		for _, rp := range []bool{false, true} {
+			for _, b := range []int{0, 5} {
+				out = append(out, cfgIn{RatePos: rp, Burst: b, N: n})
+			}
+		}
+	}
+	return out
+}
+
 func gen(r *vhlib.Rand, i int, o vhlib.Opts) any {
 	fx := fixed()
 	if i < len(fx) {
 		return fx[i]
+	}
+	cfgs := apiCfgs()
+	if k := i - len(fx); k < len(cfgs) {
+		// fill the configured limit, one more, finish one, one more: fixed shape per configuration
+		c := cfgs[k]
+		ops := []opIn{sp(0, "run", "", true, "ok", false), sp(1, "run", "resolve", true, "err", false), sp(2, "run", "", true, "ok", false),
+			sp(3, "run", "", false, "ok", false), sp(4, "prepfail", "badquery", false, "", false), fin(0), sp(5, "run", "", false, "ok", false)}
+		if c.N != 1 {
+			ops = append(ops, fin(1))
+		}
+		if c.N == 0 {
+			ops = append(ops, fin(2))
+		}
+		return input{Runner: "gqapi", Max: c.N, Ops: ops, Cfg: &c}
+	}
+	if r.Chance(20) {
+		return genAPIScript(r, vhlib.Pick(r, cfgs), 6+r.Intn(10))
 	}
 	runner := "dist"
 	if r.Chance(25) {
